@@ -5,8 +5,12 @@ package connectconformance
 import (
 	"bytes"
 	"context"
+	"encoding/binary"
+	"errors"
 	"fmt"
 	"io"
+	"net"
+	"net/http"
 	"os"
 	"strconv"
 	"strings"
@@ -17,8 +21,12 @@ import (
 	"connectrpc.com/conformance/internal"
 	"connectrpc.com/conformance/internal/app/referenceclient"
 	"connectrpc.com/conformance/internal/app/referenceserver"
+	"connectrpc.com/conformance/internal/compression"
 	conformancev1 "connectrpc.com/conformance/internal/gen/proto/go/connectrpc/conformance/v1"
 	"connectrpc.com/conformance/internal/gen/proto/go/connectrpc/conformance/v1/conformancev1connect"
+	"connectrpc.com/connect"
+	"golang.org/x/net/http2"
+	"golang.org/x/net/http2/h2c"
 	"google.golang.org/protobuf/proto"
 	"google.golang.org/protobuf/reflect/protoreflect"
 	"google.golang.org/protobuf/types/known/anypb"
@@ -164,12 +172,23 @@ func verifC19Expand(args []vsx) vsx {
 	testCase := &conformancev1.TestCase{Request: &conformancev1.ClientCompatRequest{TestName: "verif"}}
 	before := make([]verifC19Obs, len(msgs))
 	for i, d := range msgs {
+		if len(d.l) != 5 || d.l[3].i < 0 || d.l[3].i > 1<<29 || d.l[1].i > 1<<20 || d.l[4].i < 0 || d.l[4].i > 1<<20 ||
+			((d.l[0].i < 0 || d.l[0].i > 6) && d.l[4].i == 0) { // "undecodable" needs at least one byte
+			return vErr("bad-case")
+		}
 		a, err := verifC19Message(d)
 		if err != nil {
 			return vErr("harness-" + err.Error())
 		}
 		testCase.Request.RequestMessages = append(testCase.Request.RequestMessages, a)
 		before[i] = verifC19Observe(a)
+		// The model computes with the base the case claims.  A case whose claim is not the
+		// proto.Size of the message actually built (only the shrinker produces those: it moves
+		// ints independently) is ill-formed, not a disagreement.  In a generated case this
+		// result still differs from the model's, so a wrong generator is reported.
+		if int(d.l[4].i) != before[i].base {
+			return vErr("bad-case")
+		}
 	}
 	for _, d := range dirs {
 		sz := &conformancev1.TestCase_ExpandedSize{}
@@ -214,11 +233,15 @@ type verifC19Peers struct {
 	ctx     context.Context
 	client  *process
 	servers map[string]*conformancev1.ServerCompatResponse
+	stubs   map[conformancev1.HTTPVersion]*conformancev1.ServerCompatResponse
 	seq     int
 	err     error
 }
 
-var verifC19 = &verifC19Peers{servers: map[string]*conformancev1.ServerCompatResponse{}}
+var verifC19 = &verifC19Peers{
+	servers: map[string]*conformancev1.ServerCompatResponse{},
+	stubs:   map[conformancev1.HTTPVersion]*conformancev1.ServerCompatResponse{},
+}
 
 func (p *verifC19Peers) clientProc() (*process, error) {
 	if p.client != nil || p.err != nil {
@@ -264,6 +287,120 @@ func (p *verifC19Peers) server(httpVersion conformancev1.HTTPVersion, limit uint
 	return resp, nil
 }
 
+// ---- the peer of the reference client for the response direction ----
+//
+// The reference server cannot produce a response of a size chosen to the byte that is not
+// preceded by a larger one: every unary response and every first stream response echoes the
+// whole request, which carries the response definition (the shipped client_message_size suite
+// says as much in its TODO).  What C19 states for responses is about the reference CLIENT, so
+// its peer here is a minimal connect-go handler of the conformance service, set up with the
+// compressions exactly as the reference server registers them, that answers with a message of
+// exactly the size the request asks for.  The client is the real one, configured as the runner
+// configures it (ClientCompatRequest.message_receive_limit = clientReceiveLimit).
+
+type verifC19Stub struct {
+	conformancev1connect.UnimplementedConformanceServiceHandler
+}
+
+// spec = 8 bytes big-endian wanted size of the response message + 1 byte fill (0 zeros, 1 noise)
+func verifC19Spec(want int64, fill int64) []byte {
+	spec := binary.BigEndian.AppendUint64(nil, uint64(want))
+	return append(spec, byte(fill))
+}
+
+// payload such that proto.Size(wrap(payload)) == want exactly, or nil if unreachable
+func verifC19SizedPayload(spec []byte, wrap func(*conformancev1.ConformancePayload) proto.Message) *conformancev1.ConformancePayload {
+	if len(spec) != 9 {
+		return nil
+	}
+	want := int(binary.BigEndian.Uint64(spec))
+	dataLen := want - 8
+	for tries := 0; tries < 8 && dataLen >= 0; tries++ {
+		payload := &conformancev1.ConformancePayload{Data: make([]byte, dataLen)}
+		diff := want - proto.Size(wrap(payload))
+		if diff == 0 {
+			if spec[8] != 0 {
+				verifC19Noise(payload.Data, uint64(want))
+			}
+			return payload
+		}
+		dataLen += diff
+	}
+	return nil
+}
+
+// incompressible bytes (xorshift64*), so that the compressed form of a message of exactly the
+// limit is LARGER than the limit: it must still be accepted (uncompressed size counts)
+func verifC19Noise(buf []byte, seed uint64) {
+	x := seed*0x9E3779B97F4A7C15 + 0x2545F4914F6CDD1D
+	for i := range buf {
+		x ^= x >> 12
+		x ^= x << 25
+		x ^= x >> 27
+		buf[i] = byte((x * 0x2545F4914F6CDD1D) >> 56)
+	}
+}
+
+func verifC19WrapUnary(p *conformancev1.ConformancePayload) proto.Message {
+	return &conformancev1.UnaryResponse{Payload: p}
+}
+
+func verifC19WrapStream(p *conformancev1.ConformancePayload) proto.Message {
+	return &conformancev1.ServerStreamResponse{Payload: p}
+}
+
+func (verifC19Stub) Unary(_ context.Context, req *connect.Request[conformancev1.UnaryRequest]) (*connect.Response[conformancev1.UnaryResponse], error) {
+	payload := verifC19SizedPayload(req.Msg.GetResponseDefinition().GetResponseData(), verifC19WrapUnary)
+	if payload == nil {
+		return nil, connect.NewError(connect.CodeInvalidArgument, errors.New("verif: bad size spec"))
+	}
+	return connect.NewResponse(&conformancev1.UnaryResponse{Payload: payload}), nil
+}
+
+func (verifC19Stub) ServerStream(_ context.Context, req *connect.Request[conformancev1.ServerStreamRequest], stream *connect.ServerStream[conformancev1.ServerStreamResponse]) error {
+	datas := req.Msg.GetResponseDefinition().GetResponseData()
+	if len(datas) != 1 {
+		return connect.NewError(connect.CodeInvalidArgument, errors.New("verif: bad size spec"))
+	}
+	payload := verifC19SizedPayload(datas[0], verifC19WrapStream)
+	if payload == nil {
+		return connect.NewError(connect.CodeInvalidArgument, errors.New("verif: bad size spec"))
+	}
+	// a small message first: the limit is per message, not per stream
+	if err := stream.Send(&conformancev1.ServerStreamResponse{Payload: &conformancev1.ConformancePayload{Data: []byte("ok")}}); err != nil {
+		return err
+	}
+	return stream.Send(&conformancev1.ServerStreamResponse{Payload: payload})
+}
+
+func (p *verifC19Peers) stub(httpVersion conformancev1.HTTPVersion) (*conformancev1.ServerCompatResponse, error) {
+	if resp, ok := p.stubs[httpVersion]; ok {
+		return resp, nil
+	}
+	mux := http.NewServeMux()
+	mux.Handle(conformancev1connect.NewConformanceServiceHandler(verifC19Stub{},
+		// as internal/app/referenceserver/server.go createServer registers them (gzip is built in)
+		connect.WithCompression(compression.Brotli, compression.NewBrotliDecompressor, compression.NewBrotliCompressor),
+		connect.WithCompression(compression.Deflate, compression.NewDeflateDecompressor, compression.NewDeflateCompressor),
+		connect.WithCompression(compression.Snappy, compression.NewSnappyDecompressor, compression.NewSnappyCompressor),
+		connect.WithCompression(compression.Zstd, compression.NewZstdDecompressor, compression.NewZstdCompressor),
+	))
+	var handler http.Handler = mux
+	if httpVersion == conformancev1.HTTPVersion_HTTP_VERSION_2 {
+		handler = h2c.NewHandler(handler, &http2.Server{})
+	}
+	lis, err := net.Listen("tcp", "127.0.0.1:0")
+	if err != nil {
+		return nil, err
+	}
+	srv := &http.Server{Handler: handler, ReadHeaderTimeout: 5 * time.Second}
+	go func() { _ = srv.Serve(lis) }()
+	addr, _ := lis.Addr().(*net.TCPAddr)
+	resp := &conformancev1.ServerCompatResponse{Host: "127.0.0.1", Port: uint32(addr.Port)}
+	p.stubs[httpVersion] = resp
+	return resp, nil
+}
+
 func (p *verifC19Peers) call(req *conformancev1.ClientCompatRequest) (*conformancev1.ClientCompatResponse, error) {
 	client, err := p.clientProc()
 	if err != nil {
@@ -290,21 +427,43 @@ func verifC19Any(msg proto.Message) *anypb.Any {
 	return a
 }
 
-// side off httpVersion protocol compression streamType -> (limit size accepted)
+// side off httpVersion protocol compression streamType fill -> (limit size accepted)
 //
 // side 0: a request of uncompressed size serverReceiveLimit+off (built by expandRequestData)
-// is sent to a reference server started exactly as the runner starts it.
-// side 1: a server-stream response message of uncompressed size clientReceiveLimit+off is sent
-// by a reference server without receive limit to the reference client, which is given the
-// limit exactly as the runner gives it (ClientCompatRequest.message_receive_limit).
+// is sent by the reference client to a reference server started exactly as the runner starts it.
+// side 1: a response message (unary, or the second of a server stream) of uncompressed size
+// clientReceiveLimit+off is sent to the reference client, which is given the limit exactly as
+// the runner gives it (ClientCompatRequest.message_receive_limit).
+// fill 1: the bulk of the sized message is incompressible, so that with a compression its
+// compressed form is longer than the limit already at off <= 0; fill 0: zeros (compressed form
+// far below the limit also at off > 0).
 func verifC19Sharp(args []vsx) vsx {
-	verifC19.mu.Lock()
-	defer verifC19.mu.Unlock()
-	side, off := args[0].i, args[1].i
+	if len(args) != 7 {
+		return vErr("bad-case")
+	}
+	for _, a := range args {
+		if a.k != 'i' || a.g != nil {
+			return vErr("bad-case")
+		}
+	}
+	side, off, fill := args[0].i, args[1].i, args[6].i
 	httpVersion := conformancev1.HTTPVersion(args[2].i)
 	protocol := conformancev1.Protocol(args[3].i)
 	compress := conformancev1.Compression(args[4].i)
 	streamType := conformancev1.StreamType(args[5].i)
+	switch {
+	case side != 0 && side != 1, off < -4096 || off > 4096, fill != 0 && fill != 1,
+		httpVersion != conformancev1.HTTPVersion_HTTP_VERSION_1 && httpVersion != conformancev1.HTTPVersion_HTTP_VERSION_2,
+		protocol < conformancev1.Protocol_PROTOCOL_CONNECT || protocol > conformancev1.Protocol_PROTOCOL_GRPC_WEB,
+		compress < conformancev1.Compression_COMPRESSION_IDENTITY || compress > conformancev1.Compression_COMPRESSION_SNAPPY,
+		streamType < conformancev1.StreamType_STREAM_TYPE_UNARY || streamType > conformancev1.StreamType_STREAM_TYPE_FULL_DUPLEX_BIDI_STREAM,
+		httpVersion == conformancev1.HTTPVersion_HTTP_VERSION_1 && protocol == conformancev1.Protocol_PROTOCOL_GRPC,
+		httpVersion == conformancev1.HTTPVersion_HTTP_VERSION_1 && streamType == conformancev1.StreamType_STREAM_TYPE_FULL_DUPLEX_BIDI_STREAM,
+		side == 1 && streamType != conformancev1.StreamType_STREAM_TYPE_UNARY && streamType != conformancev1.StreamType_STREAM_TYPE_SERVER_STREAM:
+		return vErr("bad-case")
+	}
+	verifC19.mu.Lock()
+	defer verifC19.mu.Unlock()
 
 	small := []byte("ok")
 	unaryDef := &conformancev1.UnaryResponseDefinition{
@@ -313,82 +472,111 @@ func verifC19Sharp(args []vsx) vsx {
 	streamDef := &conformancev1.StreamResponseDefinition{ResponseData: [][]byte{small, small}}
 	testCase := &conformancev1.TestCase{Request: &conformancev1.ClientCompatRequest{}}
 	req := testCase.Request
-	var limit, size int64
-	var serverLimit uint32
+	var limit, size, wire int64
 	var method string
+	var server *conformancev1.ServerCompatResponse
+	var err error
+	wantPayloads := 1
 	none := &conformancev1.TestCase_ExpandedSize{}
 	sized := &conformancev1.TestCase_ExpandedSize{SizeRelativeToLimit: proto.Int32(int32(off))}
 	sizedIdx := 0
 
 	if side == 0 {
-		limit, serverLimit = int64(serverReceiveLimit), uint32(serverReceiveLimit)
+		limit = int64(serverReceiveLimit)
+		// existing padding of the message that gets sized: nothing, or noise a little short of
+		// (off < 0) / beyond (otherwise) the target, so that expansion appends resp. trims
+		var pad []byte
+		if fill == 1 {
+			pad = make([]byte, limit-100)
+			if off >= 0 {
+				pad = make([]byte, limit+100)
+			}
+			verifC19Noise(pad, uint64(limit+off))
+		}
 		switch streamType {
 		case conformancev1.StreamType_STREAM_TYPE_UNARY:
 			method = "Unary"
-			req.RequestMessages = []*anypb.Any{verifC19Any(&conformancev1.UnaryRequest{ResponseDefinition: unaryDef})}
+			req.RequestMessages = []*anypb.Any{verifC19Any(&conformancev1.UnaryRequest{ResponseDefinition: unaryDef, RequestData: pad})}
 			testCase.ExpandRequests = []*conformancev1.TestCase_ExpandedSize{sized}
 		case conformancev1.StreamType_STREAM_TYPE_CLIENT_STREAM:
 			method = "ClientStream"
+			if pad == nil {
+				pad = small
+			}
 			req.RequestMessages = []*anypb.Any{
 				verifC19Any(&conformancev1.ClientStreamRequest{ResponseDefinition: unaryDef}),
-				verifC19Any(&conformancev1.ClientStreamRequest{RequestData: small}),
+				verifC19Any(&conformancev1.ClientStreamRequest{RequestData: pad}),
 			}
 			testCase.ExpandRequests = []*conformancev1.TestCase_ExpandedSize{none, sized}
 			sizedIdx = 1
 		case conformancev1.StreamType_STREAM_TYPE_SERVER_STREAM:
 			method = "ServerStream"
-			req.RequestMessages = []*anypb.Any{verifC19Any(&conformancev1.ServerStreamRequest{ResponseDefinition: streamDef})}
+			wantPayloads = 2
+			req.RequestMessages = []*anypb.Any{verifC19Any(&conformancev1.ServerStreamRequest{ResponseDefinition: streamDef, RequestData: pad})}
 			testCase.ExpandRequests = []*conformancev1.TestCase_ExpandedSize{sized}
-		case conformancev1.StreamType_STREAM_TYPE_HALF_DUPLEX_BIDI_STREAM, conformancev1.StreamType_STREAM_TYPE_FULL_DUPLEX_BIDI_STREAM:
+		default: // half-/full-duplex bidi
 			method = "BidiStream"
+			wantPayloads = 2
 			full := streamType == conformancev1.StreamType_STREAM_TYPE_FULL_DUPLEX_BIDI_STREAM
 			req.RequestMessages = []*anypb.Any{
-				verifC19Any(&conformancev1.BidiStreamRequest{ResponseDefinition: streamDef, FullDuplex: full}),
+				verifC19Any(&conformancev1.BidiStreamRequest{ResponseDefinition: streamDef, FullDuplex: full, RequestData: pad}),
 				verifC19Any(&conformancev1.BidiStreamRequest{RequestData: small}),
 			}
 			testCase.ExpandRequests = []*conformancev1.TestCase_ExpandedSize{sized, none}
-		default:
-			return vErr("bad-stream-type")
 		}
 		if err := expandRequestData(testCase); err != nil {
 			return vErr("expand-failed")
 		}
 		size = int64(len(req.RequestMessages[sizedIdx].Value))
-		req.MessageReceiveLimit = uint32(clientReceiveLimit)
+		wire, err = verifC19WireSize(compress, req.RequestMessages[sizedIdx].Value)
+		if err != nil {
+			return vErr("compress")
+		}
 		if off > 0 && streamType != conformancev1.StreamType_STREAM_TYPE_UNARY {
 			req.RequestDelayMs = 50 // as the shipped suites do: let the client notice the rejection
 		}
+		server, err = verifC19.server(httpVersion, uint32(serverReceiveLimit))
 	} else {
-		limit, serverLimit = int64(clientReceiveLimit), 0
-		if streamType != conformancev1.StreamType_STREAM_TYPE_SERVER_STREAM {
-			return vErr("bad-stream-type")
-		}
-		method = "ServerStream"
-		// ServerStreamResponse{payload{data}}: find the data length giving exactly limit+off
-		want := int(limit + off)
-		dataLen := want - 8
-		var probe *conformancev1.ServerStreamResponse
-		for tries := 0; tries < 8; tries++ {
-			probe = &conformancev1.ServerStreamResponse{Payload: &conformancev1.ConformancePayload{Data: make([]byte, dataLen)}}
-			if diff := want - proto.Size(probe); diff != 0 {
-				dataLen += diff
-				continue
+		limit = int64(clientReceiveLimit)
+		spec := verifC19Spec(limit+off, fill)
+		if streamType == conformancev1.StreamType_STREAM_TYPE_UNARY {
+			method = "Unary"
+			if verifC19SizedPayload(spec, verifC19WrapUnary) == nil {
+				return vErr("response-size-unreachable")
 			}
-			break
+			req.RequestMessages = []*anypb.Any{verifC19Any(&conformancev1.UnaryRequest{
+				ResponseDefinition: &conformancev1.UnaryResponseDefinition{
+					Response: &conformancev1.UnaryResponseDefinition_ResponseData{ResponseData: spec},
+				},
+			})}
+		} else {
+			method = "ServerStream"
+			wantPayloads = 2
+			if verifC19SizedPayload(spec, verifC19WrapStream) == nil {
+				return vErr("response-size-unreachable")
+			}
+			req.RequestMessages = []*anypb.Any{verifC19Any(&conformancev1.ServerStreamRequest{
+				ResponseDefinition: &conformancev1.StreamResponseDefinition{ResponseData: [][]byte{spec}},
+			})}
 		}
-		size = int64(proto.Size(probe))
-		if size != int64(want) {
+		size = limit + off
+		wrap := verifC19WrapStream
+		if streamType == conformancev1.StreamType_STREAM_TYPE_UNARY {
+			wrap = verifC19WrapUnary
+		}
+		msgBytes, merr := proto.Marshal(wrap(verifC19SizedPayload(spec, wrap)))
+		if merr != nil || int64(len(msgBytes)) != size {
 			return vErr("response-size-unreachable")
 		}
-		def := &conformancev1.StreamResponseDefinition{ResponseData: [][]byte{small, make([]byte, dataLen)}}
-		req.RequestMessages = []*anypb.Any{verifC19Any(&conformancev1.ServerStreamRequest{ResponseDefinition: def})}
-		req.MessageReceiveLimit = uint32(clientReceiveLimit)
+		if wire, err = verifC19WireSize(compress, msgBytes); err != nil {
+			return vErr("compress")
+		}
+		server, err = verifC19.stub(httpVersion)
 	}
-
-	server, err := verifC19.server(httpVersion, serverLimit)
 	if err != nil {
 		return vErr("server-start")
 	}
+	req.MessageReceiveLimit = uint32(clientReceiveLimit) // test_case_library.go expandCases: always set
 	verifC19.seq++
 	req.TestName = fmt.Sprintf("verif-c19-%06d", verifC19.seq)
 	req.HttpVersion, req.Protocol, req.Codec, req.Compression = httpVersion, protocol, conformancev1.Codec_CODEC_PROTO, compress
@@ -424,22 +612,57 @@ func verifC19Sharp(args []vsx) vsx {
 	case result.GetError() == nil:
 		accepted = true
 		// an accepted exchange must also be complete
-		want := 1
-		if streamType == conformancev1.StreamType_STREAM_TYPE_SERVER_STREAM ||
-			streamType == conformancev1.StreamType_STREAM_TYPE_HALF_DUPLEX_BIDI_STREAM ||
-			streamType == conformancev1.StreamType_STREAM_TYPE_FULL_DUPLEX_BIDI_STREAM {
-			want = 2
-		}
-		if len(result.Payloads) != want {
+		if len(result.Payloads) != wantPayloads {
 			return vErr(fmt.Sprintf("payloads-%d", len(result.Payloads)))
+		}
+		if side == 1 {
+			// ... and the sized message must have arrived whole
+			last := result.Payloads[len(result.Payloads)-1]
+			wrap := verifC19WrapStream
+			if streamType == conformancev1.StreamType_STREAM_TYPE_UNARY {
+				wrap = verifC19WrapUnary
+			}
+			if int64(proto.Size(wrap(last))) != size {
+				return vErr("response-size-differs")
+			}
 		}
 	case result.GetError().GetCode() == conformancev1.Code_CODE_RESOURCE_EXHAUSTED:
 		accepted = false
+		if os.Getenv("VERIF_DEBUG") != "" {
+			fmt.Fprintf(os.Stderr, "verif: %s: %s\n", req.TestName, result.GetError().GetMessage())
+		}
 	default:
 		if os.Getenv("VERIF_DEBUG") != "" {
 			fmt.Fprintf(os.Stderr, "verif: rpc error: %v\n", result.GetError())
 		}
 		return vErr("code-" + strconv.Itoa(int(result.GetError().GetCode())))
 	}
+	if !accepted && size <= limit && wire > limit {
+		// rejected although the uncompressed size is within the limit, and the compressed form
+		// (what travels in the envelope) is above it: connect-go applies WithReadMaxBytes to
+		// both.  Tagged so that exactly this class can be recognised (KNOWN_FINDINGS.txt).
+		return vL(vI(limit), vI(size), vBool(accepted), vS("wire-over"))
+	}
 	return vL(vI(limit), vI(size), vBool(accepted))
+}
+
+// length of the compressed form of the sized message, as the sender's envelope writer produces it
+// with the compressor the reference peers register for that compression
+func verifC19WireSize(compress conformancev1.Compression, msg []byte) (int64, error) {
+	if compress == conformancev1.Compression_COMPRESSION_IDENTITY {
+		return int64(len(msg)), nil
+	}
+	comp, err := compression.GetCompressor(compress)
+	if err != nil {
+		return 0, err
+	}
+	var buf bytes.Buffer
+	comp.Reset(&buf)
+	if _, err := comp.Write(msg); err != nil {
+		return 0, err
+	}
+	if err := comp.Close(); err != nil {
+		return 0, err
+	}
+	return int64(buf.Len()), nil
 }
